@@ -144,17 +144,25 @@ def gen_case(seed, tier):
     def reg_op(tname=None, reg=None, exact=None, hops=None):
         tagn[0] += 1
         hops = hops or rng.sample(OPS_ALL if custom_op[0] else OPS, rng.randint(1, 2))
+        if tname is None and rng.random() < 0.06:
+            tname = rng.choice(['dict', 'list'])        # a builtin registered again, with the user's handler
         return {'op': 'register', 'reg': reg or rng.choice(regs_avail), 'type': tname or rng.choice(regable),
                 'handlers': {o: ('False' if rng.random() < 0.12 else f'h{tagn[0]}{o[0]}') for o in hops},
                 'exact': (rng.random() < 0.25) if exact is None else exact}
 
+    # now and then the target is a plain builtin instance, or a CLASS OBJECT (an instance of `type`:
+    # what is registered for its instances says nothing about the class itself)
+    extra_targets = ['dict', 'list'] + ['cls:' + n_ for n_ in names[:2]]
+
     def lookup(reg=None, cls=None, lop=None):
+        if cls is None and rng.random() < 0.1:
+            cls = rng.choice(extra_targets)
         return {'op': 'lookup', 'reg': reg or rng.choice(regs_avail), 'cls': cls or rng.choice(names),
                 'lop': lop or rng.choice(OPS_ALL if custom_op[0] else OPS)}
     custom_op = [rng.random() < 0.2]      # does this history use an operation added with register_op()?
     template = rng.random() < 0.4
     if template:
-        t = rng.choice(['mixin-order', 'structural-sibling', 'exact-then-sub', 'reregister', 'builtin-sub', 'switched-off'])
+        t = rng.choice(['mixin-order', 'structural-sibling', 'exact-then-sub', 'reregister', 'builtin-sub', 'switched-off', 'builtin-reregistered'])
         reg = rng.choice(['default', 'g0', 'b0'])
         if t == 'mixin-order' and 'D2' in names:
             base = [c for c in fam['classes'] if c['name'] == 'D'][0]['bases'][0]
@@ -184,6 +192,13 @@ def gen_case(seed, tier):
             ops.append(lookup(reg, tn, 'get'))
             ops.append(reg_op(tn, reg, exact=rng.random() < 0.5, hops=['get']))
             ops.append(lookup(reg, tn, 'get'))
+        elif t == 'builtin-reregistered':
+            # a handler registered for a builtin container type is used for plain instances of it
+            bt = rng.choice(['dict', 'list'])
+            bop = rng.choice(['get', 'get', 'iterate', 'assign', 'delete'])
+            ops.append(reg_op(bt, reg, exact=rng.random() < 0.5, hops=[bop]))
+            ops[-1]['handlers'][bop] = f'h{tagn[0]}{bop[0]}'       # (a callable, never False, here)
+            ops.append(lookup(reg, bt, bop))
         elif t == 'switched-off':
             # an operation switched off with False stays off when the type is registered again for
             # another operation (only an explicit handler replaces an earlier one)
@@ -234,6 +249,10 @@ class World:
         self.k = simrun.make_kernel(G, seed=0)
         self.env = build_family(case['family'])
         self.objs = {c['name']: make_obj(self.env[c['name']]) for c in case['family']['classes']}
+        self.objs['dict'], self.objs['list'] = make_obj(dict), make_obj(list)
+        for c in case['family']['classes'][:2]:
+            self.objs['cls:' + c['name']] = self.env[c['name']]
+            self.env['cls:' + c['name']] = type(self.env[c['name']])
         core = G.core
         self.TR = core.TargetRegistry
         self.real = {'default': core._DEFAULT_SCOPE[self.TR]}
@@ -438,7 +457,7 @@ def run_history(case, ops, set_perm=None, lookups=True, drop_before_final=False,
                     if op['lop'] in ('get', 'iterate', 'assign', 'delete') and obs not in ran:
                         viols.append({'clause': 'public-api', 'sig': f'public-api/{op["lop"]}-handler-not-run',
                                       'expected': obs, 'observed': {'ran': ran, 'err': err}, 'op_index': i})
-            if check and i % 3 == 0 and len(names) > 1 and W.list_is_plain_iterable(op['reg']):
+            if check and i % 3 == 0 and len(names) > 1 and op['cls'] in names and W.list_is_plain_iterable(op['reg']):
                 # the same through a wildcard: every match is served by the handler of ITS nearest
                 # registered type (two children of different classes under one '*')
                 other = names[(names.index(op['cls']) + 1) % len(names)]
